@@ -85,6 +85,65 @@ CHECKS['C06'] = dict(
          'named algorithm (C01-C03).',
     design='§3 C06', note=TB + '; reasoned vocabularies: family tokens per enumerator, EXTRA tokens per mode, one-sided pairing list')
 
+CHECKS['C15'] = dict(
+    technique='static analysis: call-graph coverage of reset functions, record-layout agreement (ASTRecordLayout), constant lane arguments vs handled cases, must-first-effect rule on each reset function',
+    text='Decides for every variant that each out-of-order manager the variant can park jobs in is reset, with the reset function, the '
+         'allocation table and the kernels agreeing on its type and lane count; that every reset function first clears the whole manager '
+         'up to road_block (no residue of earlier jobs); and that init with reset re-establishes the ring and binds all handler slots, so a '
+         'manager re-initialised to another variant behaves as that variant. Not decided: state kept outside the manager block (C17 inventory).',
+    design='§3 C15', note=TB)
+CHECKS['C16'] = dict(
+    technique='static analysis: exhaustiveness of pointer re-derivation and handler re-binding with constant propagation of reset_mgrs; value classification of every store into shared records (C AST) and of every image-address store (asm abstract interpretation)',
+    text='Decides the structural conditions that make the manager block self-contained and relocatable with respect to the library image: '
+         'every *_ooo pointer is re-derived on both paths of imb_set_pointers_mb_mgr; the re-attach path re-binds every handler slot of '
+         'every variant of the recorded architecture while touching neither the out-of-order managers nor the ring; no function/global/'
+         'string address or process-local handle is stored into manager, out-of-order manager or job storage by C code, and no assembly '
+         'function stores a rip-relative image address to non-stack memory. The dynamic claim (in-flight jobs complete correctly after '
+         're-attach) is NOT decided.',
+    design='§3 C16', note=TB_ASM)
+CHECKS['C08'] = dict(
+    technique='static analysis: name-token agreement of ~2400 bindings over all variant TUs; dominance-based feature-mask coverage on every path to a variant init; constant evaluation of the CPU-flag macros',
+    text='Decides necessary conditions for variant equivalence that the tests cannot reach (six of nine variants never execute on this '
+         'host): every macro->kernel binding and handler assignment agrees in key size / digest / direction / operation; every handler slot '
+         'is bound in every variant; a variant init is reachable only under feature tests covering its IMB_CPUFLAGS mask, failing edges '
+         'report IMB_ERR_MISSING_CPUFLAGS_INIT_MGR or fall through to a weaker variant, types are tried in descending order, and the '
+         'SHANI/GFNI-off flags clear exactly their bits; self-test only after successful init. NOT decided: bit-equality of different '
+         'kernels for the same algorithm, and ISA containment of every reachable instruction.',
+    design='§3 C08', note=TB)
+
+_NOTVAL = ('The property proper (output equals the published algorithm for all inputs) is a value-level claim about hand-written SIMD '
+           'and is NOT decided by this check; only the named structural necessary condition is.')
+CHECKS['C01'] = dict(
+    technique='static analysis: binding/dispatch agreement (name tokens of resolved callees under constant propagation of mode and key size)',
+    text=_NOTVAL + ' Decided: in each of the nine variant TUs (six never executed by the tests on this host) every accepted cipher table cell '
+         'dispatches to kernels carrying the named mode, key size and direction, jobs are flushed from the manager they were parked in, and '
+         'every cipher macro->kernel binding agrees in key size/direction. A wrong constant or tail branch inside a kernel is invisible to it.',
+    design='§3 C01-C03', note=TB)
+CHECKS['C02'] = dict(
+    technique='static analysis: binding/dispatch agreement for hash/MAC/CRC kernels',
+    text=_NOTVAL + ' Decided: every hash table cell of every variant dispatches algorithm i to kernels of that algorithm and digest size (HMAC '
+         'and plain kept apart), with submit/flush on the same out-of-order manager, and hash bindings agree in digest/key size/operation.',
+    design='§3 C01-C03', note=TB)
+CHECKS['C03'] = dict(
+    technique='static analysis: binding/dispatch agreement for AEAD and combined modes',
+    text=_NOTVAL + ' Decided: for GCM, GCM-SGL, CCM, ChaCha20-Poly1305(-SGL), SNOW-V-AEAD, SM4-GCM, DOCSIS-BPI and PON both table halves of every '
+         'variant dispatch the accepted (mode, key) to kernels of that mode, key size and direction; paired hash algorithms reach their own kernels.',
+    design='§3 C01-C03', note=TB)
+CHECKS['C09'] = dict(
+    technique='static analysis: constant propagation through each burst helper and comparison of the reached kernel set with the job-API table cell; CFG rules for COMPLETED hand-back',
+    text='Decides that the entry points share one dispatch, one validation and one kernel set: each synchronous cipher/AEAD burst helper of every '
+         'variant validates with the (mode, direction) whose kernels it then runs, per key size reaches only kernels the job-API cell of the same '
+         '(mode, key, direction) reaches; the asynchronous burst API indexes the same tables by suite id and rejects a stale suite id; burst calls '
+         'hand back only COMPLETED jobs; every variant binds every entry point. NOT decided: output equality between job-API kernels and the '
+         'different symbols behind the direct API (value-level).',
+    design='§3 C09', note=TB)
+CHECKS['C11'] = dict(
+    technique='static analysis: constant propagation of the algorithm selector through imb_hmac_ipad_opad; binding agreement of helper slots',
+    text='NOT decided: the key material values. Decided (selection clauses): for every accepted HMAC algorithm the over-long test, substitute '
+         'length, key hash, one-block function and 0x36/0x5c pads belong to the same algorithm, HMAC-MD5 keys over one block are refused '
+         'before any hashing, and the key-helper slots of all nine variants are bound to kernels of the same algorithm and key size.',
+    design='§3 C11', note=TB)
+
 NOT_APPLICABLE = {
     'C07': 'bounds of SIMD loads/stores relative to run-time lengths need relational numeric invariants over ~850 '
            'hand-written assembly functions; no sound static argument in reach (no frama-c; CSA/cppcheck do not see NASM)',
